@@ -8,6 +8,13 @@
   toy instance, see the examples at the end).  All statements are about every byte string, every
   structure and every key — no size bound.
 
+  Sections 1–7: the single routines (wp-c16).  Follow-up wp-c16b: §7 `ValidateRTM` without the
+  aliasing hypothesis (the code is repaired by fixes/C16-rtm-append-copy.diff; the in-place model is
+  kept in Crypto/RtmInPlace.lean with witnesses of what it got wrong), §8 `GetKeys` as a whole (the
+  inductive predicate `Psb.Trusted`, soundness, exact result, noninterference of the chain and of
+  `ValidateRTM` including its key chain), §9 the bytes an Intel manifest signature covers, derived
+  from C15's codec theorems on the regenerated layouts.
+
   FULL STATEMENT of the property, first half: "changing any bit of the covered data, of the
   signature or of the public key, or presenting a different key, yields an error".
   This is NOT a theorem about fiano: it is collision / forgery resistance of SHA-2, SM3, RSA-PSS and
@@ -21,6 +28,10 @@
 import FianoModel.Crypto.Tie
 import FianoModel.Crypto.CbntLemmas
 import FianoModel.Crypto.PsbLemmas
+import FianoModel.Crypto.RtmInPlace
+import FianoModel.Crypto.PsbChainNI
+import FianoModel.Crypto.ChainExample
+import FianoModel.Crypto.SignedRange
 
 namespace Fiano.Props.C16
 open Fiano Fiano.Crypto
@@ -333,28 +344,335 @@ theorem psb_token_key_signed (raw : Bytes) (k : Psb.Key) (n : Nat) (hk : Psb.par
     Psb.parseKey (raw.take n) = .ok (k, n) :=
   Psb.parseKey_take raw k n hk
 
-/-- `ValidateRTM`, when its in-place `append` does not overwrite what it reads afterwards: the verdict
-    is `NewSignedBlob(reverse(signature entry), volume ‖ [level-1 directory] ‖ directory, OEM key)`. -/
+/-- **`ValidateRTM`** (as repaired by fixes/C16-rtm-append-copy.diff — no aliasing hypothesis any
+    more): whenever the boundary checks pass, the verdict is
+    `NewSignedBlob(reverse(signature entry), volume ‖ [level-1 directory] ‖ directory, OEM key)`,
+    and the caller's image is left exactly as it was. -/
 theorem psb_rtm_bound (P : Prims) (img : Bytes) (level : Nat) (rtm sig dir1 dirL : Nat × Nat) (oem : Psb.Key)
-    (hna : Psb.NoAlias level rtm sig dir1 dirL) (v : Except Psb.Err Unit) (img' : Bytes)
+    (v : Except Psb.Err Unit) (img' : Bytes)
     (h : Psb.validateRTM P img level rtm sig dir1 dirL oem = some (v, img')) :
-    v = Psb.newSignedBlob P (slice img sig.1 sig.2).reverse (Psb.rtmSigned img level rtm dir1 dirL) oem :=
-  Psb.validateRTM_noalias P img level rtm sig dir1 dirL oem hna v img' h
+    v = Psb.newSignedBlob P (slice img sig.1 sig.2).reverse (Psb.rtmSigned img level rtm dir1 dirL) oem ∧ img' = img :=
+  Psb.validateRTM_some P img level rtm sig dir1 dirL oem v img' h
 
-/-- **noninterference** (RTM volume), under the same no-aliasing hypothesis: images that agree on the
-    volume, the concatenated directories and the signature entry get the same verdict. -/
+/-- … and it fails (returns a Go error instead of a result) exactly when a boundary check does: a
+    function of the image length only. -/
+theorem psb_rtm_fails_iff (P : Prims) (img : Bytes) (level : Nat) (rtm sig dir1 dirL : Nat × Nat) (oem : Psb.Key) :
+    Psb.validateRTM P img level rtm sig dir1 dirL oem = none ↔
+      Psb.rtmBounds img.length level rtm sig dir1 dirL = false :=
+  Psb.validateRTM_none_iff P img level rtm sig dir1 dirL oem
+
+/-- **noninterference** (RTM volume), unconditional: images that agree on the volume, the concatenated
+    directories and the signature entry get the same verdict. -/
 theorem psb_rtm_noninterference (P : Prims) (img img' : Bytes) (level : Nat) (rtm sig dir1 dirL : Nat × Nat)
-    (oem : Psb.Key) (hna : Psb.NoAlias level rtm sig dir1 dirL)
-    (h : AgreeOn (Psb.rtmCovered level rtm sig dir1 dirL) img img') :
+    (oem : Psb.Key) (h : AgreeOn (Psb.rtmCovered level rtm sig dir1 dirL) img img') :
     (Psb.validateRTM P img level rtm sig dir1 dirL oem).map Prod.fst =
     (Psb.validateRTM P img' level rtm sig dir1 dirL oem).map Prod.fst :=
-  Psb.validateRTM_agree P img img' level rtm sig dir1 dirL oem hna h
+  Psb.validateRTM_agree P img img' level rtm sig dir1 dirL oem h
+
+/-- **the image length has no influence either**: bytes appended to an image that contains the four
+    ranges change nothing.  (`Fits64`: offsets and sizes are uint64 values; Go slices are shorter than
+    2^64.)  The in-place code violated this — `psb_rtm_inplace_padding_flips_verdict`. -/
+theorem psb_rtm_padding_no_influence (P : Prims) (img pad : Bytes) (level : Nat) (rtm sig dir1 dirL : Nat × Nat)
+    (oem : Psb.Key) (h1 : Psb.Fits64 rtm) (h2 : Psb.Fits64 sig) (h3 : Psb.Fits64 dir1) (h4 : Psb.Fits64 dirL)
+    (hlen : (img ++ pad).length < 2 ^ 64) (hb : Psb.rtmBounds img.length level rtm sig dir1 dirL = true) :
+    (Psb.validateRTM P (img ++ pad) level rtm sig dir1 dirL oem).map Prod.fst =
+    (Psb.validateRTM P img level rtm sig dir1 dirL oem).map Prod.fst :=
+  Psb.validateRTM_pad P img pad level rtm sig dir1 dirL oem h1 h2 h3 h4 hlen hb
+
+/-! ### `ValidateRTM` before the repair (in-place `append` onto a sub-slice of the image)
+
+  `Psb.InPlace.validateRTM` is the model of the code as it was.  These statements are the analysis of
+  the defect; they are not tied to the current code. -/
+
+/-- Where the old code was right: if the window the in-place appends write, `[end of volume, + length
+    of the directories)`, is disjoint from the signature entry and from the directory read after the
+    first append (`NoAlias`), old and repaired code fail together and carry the same verdict. -/
+theorem psb_rtm_inplace_agrees_of_noalias (P : Prims) (img : Bytes) (level : Nat) (rtm sig dir1 dirL : Nat × Nat)
+    (oem : Psb.Key) (hna : Psb.InPlace.NoAlias level rtm sig dir1 dirL) :
+    (Psb.InPlace.validateRTM P img level rtm sig dir1 dirL oem).map Prod.fst =
+    (Psb.validateRTM P img level rtm sig dir1 dirL oem).map Prod.fst :=
+  Psb.InPlace.inplace_eq_repaired P img level rtm sig dir1 dirL oem hna
+
+/-- `NoAlias` fails exactly when the window meets the signature entry or the directory of the level
+    (both taken as half-open intervals that may be empty): the characterisation of the layouts on
+    which the old code could go wrong. -/
+theorem psb_rtm_noalias_iff (level : Nat) (rtm sig dir1 dirL : Nat × Nat) :
+    ¬ Psb.InPlace.NoAlias level rtm sig dir1 dirL ↔
+      (rtm.1 + rtm.2 < sig.1 + sig.2 ∧ sig.1 < rtm.1 + rtm.2 + ((if level = 2 then dir1.2 else 0) + dirL.2)) ∨
+      (rtm.1 + rtm.2 < dirL.1 + dirL.2 ∧ dirL.1 < rtm.1 + rtm.2 + ((if level = 2 then dir1.2 else 0) + dirL.2)) := by
+  unfold Psb.InPlace.NoAlias
+  omega
+
+/-- Witness (i): signature entry right behind the volume — a properly signed image is rejected. -/
+theorem psb_rtm_inplace_rejects_valid :
+    ∃ (img : Bytes) (rtm sig dirL : Nat × Nat) (oem : Psb.Key), ¬ Psb.InPlace.NoAlias 1 rtm sig (0, 0) dirL ∧
+      Psb.InPlace.verdict (Psb.validateRTM Toy.prims img 1 rtm sig (0, 0) dirL oem) = some true ∧
+      Psb.InPlace.verdict (Psb.InPlace.validateRTM Toy.prims img 1 rtm sig (0, 0) dirL oem) = some false :=
+  ⟨_, _, _, _, _, Psb.InPlace.witness_valid_rejected⟩
+
+/-- Witness (ii), the unsound direction: an image whose signature entry is *not* valid for
+    volume ‖ directory is accepted (the bytes read as signature are partly directory bytes). -/
+theorem psb_rtm_inplace_accepts_invalid :
+    ∃ (img : Bytes) (rtm sig dirL : Nat × Nat) (oem : Psb.Key),
+      Psb.newSignedBlob Toy.prims (slice img sig.1 sig.2).reverse (Psb.rtmSigned img 1 rtm (0, 0) dirL) oem ≠ .ok () ∧
+      Psb.InPlace.verdict (Psb.InPlace.validateRTM Toy.prims img 1 rtm sig (0, 0) dirL oem) = some true := by
+  refine ⟨[0, 0x7D, 70, 70, 0xFF, 0xFF, 0x18, 0x81], (2, 2), (4, 4), (0, 2), Psb.InPlace.wKey, ?_,
+    Psb.InPlace.witness_invalid_accepted.2⟩
+  intro h
+  have := Psb.InPlace.witness_invalid_accepted.1
+  unfold Psb.InPlace.verdict Psb.validateRTM at this
+  rw [if_neg (by decide)] at this
+  simp only [Option.map_some, h] at this
+  cases this
+
+/-- Witness (iii): the old verdict depended on bytes outside every covered range — two padding bytes
+    appended to the image switch `append` from reallocating to writing in place and flip the verdict
+    from valid to invalid (contrast `psb_rtm_padding_no_influence`). -/
+theorem psb_rtm_inplace_padding_flips_verdict :
+    ∃ (img pad : Bytes) (rtm sig dirL : Nat × Nat) (oem : Psb.Key),
+      Psb.rtmBounds img.length 1 rtm sig (0, 0) dirL = true ∧
+      Psb.InPlace.verdict (Psb.InPlace.validateRTM Toy.prims img 1 rtm sig (0, 0) dirL oem) = some true ∧
+      Psb.InPlace.verdict (Psb.InPlace.validateRTM Toy.prims (img ++ pad) 1 rtm sig (0, 0) dirL oem) = some false :=
+  ⟨[1, 2, 3, 4, 5, 6, 7, 8, 0x00, 0xFC, 0x5D, 0x81], [0, 0], (6, 2), (8, 4), (0, 6), Psb.InPlace.wKey, by decide,
+    Psb.InPlace.witness_padding_flips_verdict.1, Psb.InPlace.witness_padding_flips_verdict.2.1⟩
+
+/-- Witness (iv): the old code wrote into the caller's image, so that a second run on the same buffer
+    gave another verdict (contrast `psb_rtm_bound`: `img' = img`). -/
+theorem psb_rtm_inplace_second_run_differs :
+    ∃ (img img' : Bytes) (rtm sig dirL : Nat × Nat) (oem : Psb.Key),
+      Psb.InPlace.verdict (Psb.InPlace.validateRTM Toy.prims img 1 rtm sig (0, 0) dirL oem) = some true ∧
+      (Psb.InPlace.validateRTM Toy.prims img 1 rtm sig (0, 0) dirL oem).map Prod.snd = some img' ∧
+      Psb.InPlace.verdict (Psb.InPlace.validateRTM Toy.prims img' 1 rtm sig (0, 0) dirL oem) = some false :=
+  ⟨_, _, _, _, _, _, Psb.InPlace.witness_second_run_differs⟩
 
 /-- The key-database loop never runs out of fuel: every fuel above the length gives the same result
     (each accepted entry consumes at least 80 bytes). -/
 theorem psb_keydb_fuel (db : Bytes) (ks : Psb.KeySet) (fuel : Nat) (h : db.length < fuel) :
     Psb.parseKeyDatabase db ks = if db.length < 80 then .error .format else Psb.dbLoop fuel (db.drop 80) ks :=
   Psb.parseKeyDatabase_never_out_of_fuel db ks fuel h
+
+/-! ## 8. AMD PSB: `GetKeys` as a whole (root key → key database → ABL / OEM token keys) -/
+
+/-- `Psb.getKeysAll` — the key set as Go leaves it (it is filled in place and returned *together with*
+    the error) — refines the error-or-result model `Psb.getKeys` the harness compares: same error, or
+    the same key set. -/
+theorem psb_getkeys_refines (P : Prims) (r d a : Bytes) (o : Option Bytes) :
+    Psb.toExcept (Psb.getKeysAll P r d a o) = Psb.getKeys P r d a o :=
+  Psb.getKeysAll_toExcept P r d a o
+
+/-- **`GetKeys`, soundness of the whole chain.**  Every key of the key set `GetKeys` hands back — with
+    or without an error — is `Trusted`: it is the root key, or a key of the key database whose PSP
+    binary a trusted key signed, or the key of an ABL / OEM token that a trusted key signed.
+    (`Psb.Trusted P root db toks k` is the inductive predicate "chain of verified signatures from
+    `root` to `k`".)  A key enters the result only if its whole chain verifies. -/
+theorem psb_getkeys_trusted (P : Prims) (r d a : Bytes) (o : Option Bytes) :
+    ∀ e ∈ (Psb.getKeysAll P r d a o).1,
+      ∃ root, Psb.newRootKey r = .ok root ∧ Psb.Trusted P root d (a :: o.toList) e.2 :=
+  Psb.getKeysAll_trusted P r d a o
+
+/-- the same for a key set returned without error -/
+theorem psb_getkeys_ok_trusted (P : Prims) (r d a : Bytes) (o : Option Bytes) (ks : Psb.KeySet)
+    (h : Psb.getKeys P r d a o = .ok ks) :
+    ∃ root, Psb.newRootKey r = .ok root ∧ ∀ e ∈ ks, Psb.Trusted P root d (a :: o.toList) e.2 :=
+  Psb.getKeys_trusted P r d a o ks h
+
+/-- **every link of the chain is the abstract primitive**: a token link is RSA-PSS under the decoded
+    value of the certifying key, with the hash named by that key's modulus size (SHA-384 for 4096,
+    SHA-256 for 2048 bits), over exactly the `n` bytes parsed into the key, against the reversed
+    bytes that follow them. -/
+theorem psb_chain_link_token (P : Prims) (tok : Bytes) (s k : Psb.Key) (h : Psb.TokenCertifies P tok s k) :
+    ∃ n pk, Psb.parseKey tok = .ok (k, n) ∧ Psb.keyGet s = .ok pk ∧
+      ((Psb.modBytes pk.n = 512 ∧ P.rsaVerify .pss Psb.algSHA384 pk (P.hash Psb.algSHA384 (tok.take n))
+          (slice tok n s.modulus.length).reverse = true) ∨
+       (Psb.modBytes pk.n = 256 ∧ P.rsaVerify .pss Psb.algSHA256 pk (P.hash Psb.algSHA256 (tok.take n))
+          (slice tok n s.modulus.length).reverse = true)) :=
+  h.prim
+
+/-- … and a key database link is RSA-PSS under the decoded value of the signing key over exactly the
+    signed range `[0, signedEnd)` that `getSignedBlob` derives from the PSP header under that key,
+    against the signature range; the certified key is one of the keys of that signed range. -/
+theorem psb_chain_link_db (P : Prims) (db : Bytes) (s k : Psb.Key) (h : Psb.DbCertifies P db s k) :
+    ∃ hd r pk, Psb.parseHeader db = some hd ∧ Psb.blobRanges hd [(.amdRoot, s)] db.length = .ok r ∧ r.key = s ∧
+      Psb.keyGet s = .ok pk ∧ k ∈ Psb.dbKeysOf ((slice db 0 r.signedEnd).drop Psb.pspHeaderSize) ∧
+      ((Psb.modBytes pk.n = 512 ∧ P.rsaVerify .pss Psb.algSHA384 pk (P.hash Psb.algSHA384 (slice db 0 r.signedEnd))
+          (slice db r.sigStart r.sigLen) = true) ∨
+       (Psb.modBytes pk.n = 256 ∧ P.rsaVerify .pss Psb.algSHA256 pk (P.hash Psb.algSHA256 (slice db 0 r.signedEnd))
+          (slice db r.sigStart r.sigLen) = true)) :=
+  h.prim
+
+/-- a link depends on the certifying key only through its id, its *decoded value* and the length of
+    its modulus field: version, usage flag, reserved bytes and certifying-key id of the signer have no
+    influence on the verdict. -/
+theorem psb_chain_link_signer_decoded (P : Prims) (tok : Bytes) (s s' k : Psb.Key) (hid : s.keyID = s'.keyID)
+    (hg : Psb.keyGet s = Psb.keyGet s') (hl : s.modulus.length = s'.modulus.length)
+    (hv : Psb.checkValid s = Psb.checkValid s') :
+    Psb.TokenCertifies P tok s k ↔ Psb.TokenCertifies P tok s' k :=
+  Psb.TokenCertifies.signer_decoded hid hg hl hv
+
+/-- **`GetKeys`, the exact result**: a key set returned without error is the root key, then all keys of
+    the signed key database body in order, then the ABL key, then the OEM key if there is an OEM entry;
+    the database is accepted under the root key alone, the ABL token under root + database keys, the
+    OEM token under root + database + ABL keys. -/
+theorem psb_getkeys_shape (P : Prims) (r d a : Bytes) (o : Option Bytes) (ks : Psb.KeySet)
+    (h : Psb.getKeys P r d a o = .ok ks) :
+    ∃ root signed abl, Psb.newRootKey r = .ok root ∧ Psb.getSignedBlob P d [(.amdRoot, root)] = .ok signed ∧
+      let base : Psb.KeySet :=
+        (.amdRoot, root) :: (Psb.dbKeysOf (signed.drop Psb.pspHeaderSize)).map (fun k => (Psb.KeyType.keyDB, k))
+      Psb.newTokenKey P a base = .ok abl ∧
+      match o with
+      | none => ks = base ++ [(.abl, abl)]
+      | some oe => ∃ oem, Psb.newTokenKey P oe (base ++ [(.abl, abl)]) = .ok oem ∧
+          ks = base ++ [(.abl, abl)] ++ [(.oem, oem)] :=
+  Psb.getKeys_shape P r d a o ks h
+
+/-- **`GetKeys`, noninterference of the whole chain** (entries): two sets of entries that agree on what
+    each step reads — the root entry on what the key parser consumes; the database entry on header,
+    signed range and signature as derived under the root key; the ABL token on key material and
+    signature under the key set after the database step; the OEM token likewise under the key set
+    with the ABL key (`Psb.KeysAgree`) — yield the same key set and the same error. -/
+theorem psb_getkeys_noninterference (P : Prims) (r r' d d' a a' : Bytes) (o o' : Option Bytes)
+    (h : Psb.KeysAgree P r r' d d' a a' o o') :
+    Psb.getKeysAll P r d a o = Psb.getKeysAll P r' d' a' o' ∧ Psb.getKeys P r d a o = Psb.getKeys P r' d' a' o' :=
+  ⟨Psb.getKeysAll_agree P h, Psb.getKeys_agree P h⟩
+
+/-- … on an image with located entries: images of the same length that agree on the covered positions
+    of the four entries give the same result. -/
+theorem psb_getkeys_image_noninterference (P : Prims) (img img' : Bytes) (rootR dbR ablR : Nat × Nat)
+    (oemR : Option (Nat × Nat)) (h : AgreeOn (Psb.keysCovered P img rootR dbR ablR oemR) img img') :
+    Psb.getKeysImg P img rootR dbR ablR oemR = Psb.getKeysImg P img' rootR dbR ablR oemR :=
+  Psb.getKeysImg_agree P img img' rootR dbR ablR oemR h
+
+/-- **`ValidateRTM` including its key chain, noninterference**: images of the same length that agree on
+    the covered positions of the key chain entries and on volume, concatenated directories and signature
+    entry get the same outcome (error, invalid, valid). -/
+theorem psb_rtm_full_noninterference (P : Prims) (img img' : Bytes) (level : Nat) (rootR dbR ablR : Nat × Nat)
+    (oemR : Option (Nat × Nat)) (rtm sig dir1 dirL : Nat × Nat)
+    (h : AgreeOn (fun i => Psb.keysCovered P img rootR dbR ablR oemR i ∨ Psb.rtmCovered level rtm sig dir1 dirL i) img img') :
+    (Psb.validateRTMFull P img level rootR dbR ablR oemR rtm sig dir1 dirL).map Prod.fst =
+    (Psb.validateRTMFull P img' level rootR dbR ablR oemR rtm sig dir1 dirL).map Prod.fst :=
+  Psb.validateRTMFull_agree P img img' level rootR dbR ablR oemR rtm sig dir1 dirL h
+
+/-- **`ValidateRTM` including its key chain, bound**: a valid verdict means that the OEM key is trusted
+    (chain of verified signatures up to the root key of the image), has usage PSBSignBIOS, and accepts
+    the reversed signature entry over volume ‖ [level-1 directory] ‖ directory; the image is unchanged. -/
+theorem psb_rtm_full_bound (P : Prims) (img : Bytes) (level : Nat) (rootR dbR ablR : Nat × Nat)
+    (oemR : Option (Nat × Nat)) (rtm sig dir1 dirL : Nat × Nat) (img' : Bytes)
+    (h : Psb.validateRTMFull P img level rootR dbR ablR oemR rtm sig dir1 dirL = some (.ok (), img')) :
+    ∃ root oem oR, oemR = some oR ∧ Psb.newRootKey (slice img rootR.1 rootR.2) = .ok root ∧
+      Psb.Trusted P root (slice img dbR.1 dbR.2) [slice img ablR.1 ablR.2, slice img oR.1 oR.2] oem ∧
+      oem.usage = Psb.usagePSBSignBIOS ∧
+      Psb.newSignedBlob P (slice img sig.1 sig.2).reverse (Psb.rtmSigned img level rtm dir1 dirL) oem = .ok () ∧
+      img' = img :=
+  Psb.validateRTMFull_ok P img level rootR dbR ablR oemR rtm sig dir1 dirL img' h
+
+/-! ## 9. Intel: the bytes a manifest signature covers (C16's covered range ∘ C15's codec)
+
+  `SignedRange.covered b off = b.take off` is C16's covered-range function: `bytes[0 : signatureOffset]`
+  of the serialised manifest.  The theorems below are derived from C15's `offset_eq`, `km_sigoffset`
+  and `bpm_sigoffset` on the layouts regenerated from the Go declarations (`IsGenerated`). -/
+
+open Fiano.Manifest Fiano.Manifest.C15 in
+/-- **key manifests, covered range by accessor** (`bytes[:m.KeyAndSignatureOffset()]`, CBnT and Boot
+    Guard): the covered bytes of a written key manifest are exactly the serialisation of the fields
+    before `KeyAndSignature` (as written), and the rest of the output is exactly the `KeyAndSignature`
+    structure. -/
+theorem km_signature_covers (q : String) (hq : q = "cbntkey.Manifest" ∨ q = "bgkey.Manifest") (S : SDef)
+    (h : IsGenerated q S) (vs : List Val) (hs : shaped S.body vs = true) :
+    ∃ o rs inner, offsetOf S.body vs "KeyAndSignature" = some o ∧
+      S.body.fromField "KeyAndSignature" = .sub "KeyAndSignature" rs inner .done ∧
+      SignedRange.covered (S.encode vs) o = encodeRaw (S.body.before "KeyAndSignature") (S.rehash vs) ∧
+      (S.encode vs).drop o = encodeRaw (.sub "KeyAndSignature" rs inner .done)
+                                ((S.rehash vs).drop (S.body.index "KeyAndSignature")) :=
+  SignedRange.km_covered_by_accessor q hq S h vs hs
+
+open Fiano.Manifest Fiano.Manifest.C15 in
+/-- **CBnT key manifest, covered range by the stored field** (`bytes[:KeyManifestSignatureOffset]`): the
+    stored offset equals the accessor and cuts the output exactly between the fields before
+    `KeyAndSignature` and that structure.  `hlen` rules out the wrap of the uint16 field. -/
+theorem km_signature_covers_stored (S : SDef) (h : IsGenerated "cbntkey.Manifest" S) (vs : List Val)
+    (hs : shaped S.body vs = true) (hlen : (S.encode vs).length < 65536) :
+    ∃ off rs inner, getNum S.body (S.rehash vs) "KeyManifestSignatureOffset" = some off ∧
+      offsetOf S.body vs "KeyAndSignature" = some off ∧
+      S.body.fromField "KeyAndSignature" = .sub "KeyAndSignature" rs inner .done ∧
+      SignedRange.covered (S.encode vs) off = encodeRaw (S.body.before "KeyAndSignature") (S.rehash vs) ∧
+      (S.encode vs).drop off = encodeRaw (.sub "KeyAndSignature" rs inner .done)
+                                  ((S.rehash vs).drop (S.body.index "KeyAndSignature")) :=
+  SignedRange.km_covered_by_stored_offset S h vs hs hlen
+
+open Fiano.Manifest Fiano.Manifest.C15 in
+/-- **CBnT boot policy manifest, covered range by the stored field** (`bytes[:BPMH.KeySignatureOffset]`):
+    exactly the output for the six slots before PMSE followed by PMSE's struct-info; the rest of the
+    output is exactly PMSE's `KeySignature` structure (PMSE is the last slot, `KeySignature` its last
+    field). -/
+theorem bpm_signature_covers_stored (C : Container) (h : IsGeneratedContainer "cbntbootpolicy.Manifest" C)
+    (vs : List Val) (bpmh pmse : List Val) (sg st : Slot)
+    (hsg : C.slots[0]? = some sg) (hst : C.slots[6]? = some st)
+    (hvg : vs[0]? = some (.node bpmh)) (hvt : vs[6]? = some (.node pmse))
+    (hshg : shaped sg.elem.body bpmh = true) (hsht : shaped st.elem.body pmse = true)
+    (hlen : (C.encode vs).length < 65536) :
+    ∃ off Wg Wt rs inner, (C.rehash vs)[0]? = some (.node Wg) ∧ (C.rehash vs)[6]? = some (.node Wt) ∧
+      getNum sg.elem.body Wg "KeySignatureOffset" = some off ∧
+      st.elem.body.fromField "KeySignature" = .sub "KeySignature" rs inner .done ∧
+      SignedRange.covered (C.encode vs) off = ((zipSlots slotRaw C.slots (C.rehash vs)).take 6).flatten
+                                    ++ encodeRaw (st.elem.body.before "KeySignature") Wt ∧
+      (C.encode vs).drop off = encodeRaw (.sub "KeySignature" rs inner .done)
+                                  (Wt.drop (st.elem.body.index "KeySignature")) :=
+  SignedRange.bpm_covered_by_stored_offset C h vs bpmh pmse sg st hsg hst hvg hvt hshg hsht hlen
+
+open Fiano.Manifest Fiano.Manifest.C15 in
+/-- **the verdict on the bytes of a written CBnT key manifest** ("ReadFrom, then
+    `KeyAndSignature.Verify(bytes[:KeyManifestSignatureOffset])`"): it is valid iff the key-and-signature
+    structure as written decodes to a `ks` that names an RSA scheme and key, SHA256 or SHA384, and the
+    primitive accepts (decoded key, *the named hash of exactly the serialisation of the fields before
+    `KeyAndSignature`*, signature bytes) — `verify_bound` with the covered range of the codec.  Bytes
+    that follow the manifest have no influence. -/
+theorem km_written_verdict_bound (P : Prims) (S : SDef) (h : IsGenerated "cbntkey.Manifest" S) (vs : List Val) (r : Bytes)
+    (hwt : wt S.body [] vs = true) (hlen : (S.encode vs).length < 65536) :
+    SignedRange.kmVerify P S (S.encode vs ++ r) = some (.ok ()) ↔
+      ∃ L kv ks sch, findSub S.body (S.rehash vs) "KeyAndSignature" = some (L, kv) ∧
+        SignedRange.ksOfVal L kv = some ks ∧ Cbnt.rsaSchemeOf ks.sig.sigScheme = some sch ∧
+        ks.key.keyAlg = Cbnt.algRSA ∧ ks.key.data.length = ks.key.keySize / 8 + 4 ∧
+        (ks.sig.hashAlg = Cbnt.algSHA256 ∨ ks.sig.hashAlg = Cbnt.algSHA384) ∧
+        P.rsaVerify sch ks.sig.hashAlg (Cbnt.decodeRSA ks.key.data)
+          (P.hash ks.sig.hashAlg (encodeRaw (S.body.before "KeyAndSignature") (S.rehash vs))) ks.sig.data = true := by
+  rw [SignedRange.kmVerify_written P S h vs r hwt hlen]
+  cases hf : findSub S.body (S.rehash vs) "KeyAndSignature" with
+  | none => simp
+  | some p =>
+    obtain ⟨L, kv⟩ := p
+    simp only [Option.bind_some]
+    cases hk : SignedRange.ksOfVal L kv with
+    | none =>
+      simp only [Option.map_none]
+      constructor
+      · intro h; cases h
+      · rintro ⟨L', kv', ks', sch, e1, e2, _⟩
+        cases e1
+        rw [hk] at e2; cases e2
+    | some ks =>
+      simp only [Option.map_some, Option.some.injEq]
+      rw [verify_bound]
+      constructor
+      · rintro ⟨sch, h1, h2, h3, h4, h5⟩
+        exact ⟨L, kv, ks, sch, rfl, hk, h1, h2, h3, h4, h5⟩
+      · rintro ⟨L', kv', ks', sch, e1, e2, h1, h2, h3, h4, h5⟩
+        cases e1
+        rw [hk] at e2
+        cases e2
+        exact ⟨sch, h1, h2, h3, h4, h5⟩
+
+open Fiano.Manifest Fiano.Manifest.C15 in
+/-- **noninterference on the serialised key manifest**: two written key manifests whose fields before
+    `KeyAndSignature` serialise alike and whose key-and-signature structures are equal get the same
+    verdict, whatever follows them. -/
+theorem km_written_verdict_noninterference (P : Prims) (S : SDef) (h : IsGenerated "cbntkey.Manifest" S) (vs vs' : List Val)
+    (r r' : Bytes) (hwt : wt S.body [] vs = true) (hwt' : wt S.body [] vs' = true)
+    (hlen : (S.encode vs).length < 65536) (hlen' : (S.encode vs').length < 65536)
+    (hcov : encodeRaw (S.body.before "KeyAndSignature") (S.rehash vs) =
+            encodeRaw (S.body.before "KeyAndSignature") (S.rehash vs'))
+    (hks : findSub S.body (S.rehash vs) "KeyAndSignature" = findSub S.body (S.rehash vs') "KeyAndSignature") :
+    SignedRange.kmVerify P S (S.encode vs ++ r) = SignedRange.kmVerify P S (S.encode vs' ++ r') :=
+  SignedRange.kmVerify_noninterference P S h vs vs' r r' hwt hwt' hlen hlen' hcov hks
 
 /-! ## non-vacuity: the hypotheses above are inhabited -/
 
@@ -392,14 +710,19 @@ example : AgreeOn (InRanges [(1, 2)]) [0, 1, 2, 3] [9, 1, 2, 7] ∧ ([0, 1, 2, 3
   have : i = 1 ∨ i = 2 := by simp only at h1 h2; omega
   rcases this with rfl | rfl <;> rfl
 
-/-- `NoAlias` holds for a layout with the signature and the directory before the volume -/
-example : Psb.NoAlias 1 (400, 100) (100, 256) (0, 0) (10, 88) := by
-  unfold Psb.NoAlias; decide
+/-- `NoAlias` (hypothesis of `psb_rtm_inplace_agrees_of_noalias`) holds for a layout with the signature
+    and the directory before the volume -/
+example : Psb.InPlace.NoAlias 1 (400, 100) (100, 256) (0, 0) (10, 88) := by
+  unfold Psb.InPlace.NoAlias; decide
 
-/-- … and fails for a signature placed right behind the volume (the case `ValidateRTM` gets wrong:
-    its `append` overwrites the signature before it is read) -/
-example : ¬ Psb.NoAlias 1 (400, 100) (500, 256) (0, 0) (10, 88) := by
-  unfold Psb.NoAlias; decide
+/-- … and at the boundary: a signature entry that starts exactly where the window ends -/
+example : Psb.InPlace.NoAlias 1 (400, 100) (588, 256) (0, 0) (10, 88) ∧
+    ¬ Psb.InPlace.NoAlias 1 (400, 100) (587, 256) (0, 0) (10, 88) := by
+  unfold Psb.InPlace.NoAlias; decide
+
+/-- `psb_rtm_padding_no_influence` applies: ranges of uint64 values inside a 600-byte image -/
+example : Psb.Fits64 (400, 100) ∧ Psb.rtmBounds 600 1 (400, 100) (100, 256) (0, 0) (10, 88) = true := by
+  unfold Psb.Fits64; decide
 
 /-- `psb_blob_ranges_wf` applies: an uncompressed binary of 0x100 + 16 signed bytes, signature of a
     2048-bit key right behind -/
@@ -415,5 +738,148 @@ example : ∃ r, Psb.blobRanges
 /-- the uint32 wrap of the compressed convention: a compressed size of 0xFFFFFFF0 "aligns" to a signed
     image of 0xF0 bytes — smaller than the header — and is refused -/
 example : Psb.alignedSigned 0xFFFFFFF0 = 0xF0 := by decide
+
+open Fiano.Manifest Fiano.Manifest.C15 in
+/-- **the verdict on the bytes of a written CBnT boot policy manifest** ("ReadFrom, then
+    `PMSE.KeySignature.Verify(bytes[:BPMH.KeySignatureOffset])`"): `KeySignature.Verify` of PMSE's
+    key-and-signature structure as written, over exactly the output for the six slots before PMSE
+    followed by PMSE's struct-info.  Hypotheses as in C15's container theorems: the value is well-typed
+    as written (`C.wt`), BPMH and PMSE are shaped, fewer bytes than a struct-info follow, and the
+    manifest is shorter than 64 KiB (no wrap of the uint16 offset). -/
+theorem bpm_written_verdict (P : Prims) (C : Container) (h : IsGeneratedContainer "cbntbootpolicy.Manifest" C)
+    (vs : List Val) (r : Bytes) (bpmh pmse : List Val) (sg st : Slot)
+    (hsg : C.slots[0]? = some sg) (hst : C.slots[6]? = some st)
+    (hvg : vs[0]? = some (.node bpmh)) (hvt : vs[6]? = some (.node pmse))
+    (hshg : shaped sg.elem.body bpmh = true) (hsht : shaped st.elem.body pmse = true)
+    (hwt : C.wt (C.rehash vs) = true) (hr : r.length < C.siLen) (hlen : (C.encode vs).length < 65536) :
+    ∃ Wt, (C.rehash vs)[6]? = some (.node Wt) ∧
+      SignedRange.bpmVerify P C (C.encode vs ++ r) =
+        (findSub st.elem.body Wt "KeySignature").bind fun p =>
+          (SignedRange.ksOfVal p.1 p.2).map fun ks =>
+            Cbnt.verify P ks (((zipSlots slotRaw C.slots (C.rehash vs)).take 6).flatten
+                                ++ encodeRaw (st.elem.body.before "KeySignature") Wt) :=
+  SignedRange.bpmVerify_written P C h vs r bpmh pmse sg st hsg hst hvg hvt hshg hsht hwt hr hlen
+
+/-! ### non-vacuity of sections 8 and 9 -/
+
+set_option maxRecDepth 1000000
+
+/-- `psb_getkeys_ok_trusted` / `psb_getkeys_shape` apply: a complete three-level chain over (wide) toy
+    primitives — root A1, database key B2, ABL key C3 certified by B2, OEM key D4 certified by C3 —
+    is accepted, so the OEM key is `Trusted` through three verified links -/
+example : ∃ ks, Psb.getKeys Psb.Example.prims Psb.Example.rootEntry Psb.Example.dbEntry Psb.Example.ablEntry
+    (some Psb.Example.oemEntry) = .ok ks ∧ ks.length = 4 := by
+  have h := Psb.Example.chain_ok
+  unfold Psb.Example.ids at h
+  split at h
+  · rename_i ks hk
+    refine ⟨ks, hk, ?_⟩
+    have := congrArg (Option.map List.length) h
+    simpa using this
+  · cases h
+
+/-- a broken link in the middle (ABL signature with one bit flipped): `GetKeys` fails and the key set it
+    leaves behind holds root and database key only; a token certified by a key that is not in the set,
+    or naming a trusted key but signed by another one, or naming and signed by itself, is refused; a broken
+    database signature leaves
+    the root key alone -/
+example : Psb.Example.ids (Psb.getKeys Psb.Example.prims Psb.Example.rootEntry Psb.Example.dbEntry Psb.Example.ablBroken
+      (some Psb.Example.oemEntry)) = none ∧
+    Psb.Example.ids (Psb.getKeys Psb.Example.prims Psb.Example.rootEntry Psb.Example.dbEntry Psb.Example.ablEntry
+      (some Psb.Example.oemUntrusted)) = none ∧
+    Psb.Example.ids (Psb.getKeys Psb.Example.prims Psb.Example.rootEntry Psb.Example.dbEntry Psb.Example.ablEntry
+      (some Psb.Example.oemWrongSigner)) = none ∧
+    Psb.Example.ids (Psb.getKeys Psb.Example.prims Psb.Example.rootEntry Psb.Example.dbEntry Psb.Example.ablEntry
+      (some Psb.Example.oemSelfSigned)) = none ∧
+    Psb.Example.kids (Psb.getKeysAll Psb.Example.prims Psb.Example.rootEntry Psb.Example.dbBroken Psb.Example.ablEntry
+      (some Psb.Example.oemEntry)).1 = [Psb.Example.id16 0xA1] :=
+  ⟨Psb.Example.chain_broken_middle.1, Psb.Example.chain_untrusted_signer.1, Psb.Example.chain_wrong_signer,
+    Psb.Example.chain_self_signed, Psb.Example.chain_broken_db.2⟩
+
+/-- `KeysAgree` is not equality: root entries that differ in a byte behind the key material agree on
+    everything `GetKeys` reads -/
+example : Psb.KeysAgree Psb.Example.prims (Psb.Example.rootEntry ++ [7]) (Psb.Example.rootEntry ++ [9])
+    Psb.Example.dbEntry Psb.Example.dbEntry Psb.Example.ablEntry Psb.Example.ablEntry none none ∧
+    Psb.Example.rootEntry ++ [7] ≠ Psb.Example.rootEntry ++ [9] := by
+  have hlen : Psb.Example.rootEntry.length = 576 := Psb.Example.lengths.1
+  have hn : (match Psb.parseKey (Psb.Example.rootEntry ++ [7]) with | .ok (_, n) => n | .error _ => 0) = 576 := by
+    decide
+  refine ⟨⟨⟨by simp, ?_⟩, fun _ _ => AgreeOn.refl _ _, fun _ _ => AgreeOn.refl _ _, rfl,
+    fun _ _ _ _ _ hx => by cases hx⟩, by simp⟩
+  intro i hi
+  have hi' : i < 576 := by
+    rcases hi with hi | ⟨k, n, hk, hi⟩
+    · omega
+    · rw [hk] at hn; simp only at hn; omega
+  rw [List.getElem?_append_left (by omega), List.getElem?_append_left (by omega)]
+
+/-- `psb_rtm_full_bound` and `psb_rtm_full_noninterference` apply: the toy image (key chain, directory,
+    volume and the signature entry right behind the volume) is valid as a whole; an image that differs
+    from it in a byte appended behind everything agrees with it on all covered positions -/
+example : (Psb.validateRTMFull Psb.Example.prims Psb.Example.image 1 (0, 576) (576, 928) (1504, 580) (some (2084, 580))
+      (2666, 3) (2669, 256) (0, 0) (2664, 2)).map (fun r => (r.1.toBool, r.2 == Psb.Example.image)) = some (true, true) :=
+  Psb.Example.image_valid
+
+example : AgreeOn (fun i => Psb.keysCovered Psb.Example.prims (Psb.Example.image ++ [0]) (0, 576) (576, 928) (1504, 580)
+      (some (2084, 580)) i ∨ Psb.rtmCovered 1 (2666, 3) (2669, 256) (0, 0) (2664, 2) i)
+    (Psb.Example.image ++ [0]) (Psb.Example.image ++ [1]) := by
+  have hlen : Psb.Example.image.length = 2925 := Psb.Example.lengths.2.2.2.2
+  refine ⟨by simp, ?_⟩
+  intro i hi
+  have hi' : i < 2925 := by
+    rcases hi with (⟨_, h, _⟩ | ⟨_, h, _⟩ | ⟨_, h, _⟩ | ⟨oR, _, _, _, ho, _, h, _⟩) | (h | h | h | h)
+    · simp only at h; omega
+    · simp only at h; omega
+    · simp only at h; omega
+    · cases ho; simp only at h; omega
+    · simp only at h; omega
+    · simp only at h; omega
+    · simp only at h; omega
+    · exact absurd h.1 (by decide)
+  rw [List.getElem?_append_left (by omega), List.getElem?_append_left (by omega)]
+
+/-- section 9: the regenerated layouts exist (`IsGenerated`), the sample key manifest is well-typed on
+    them and shorter than 64 KiB; `tie_ks_fields` evaluates the whole pipeline on it -/
+example : (∃ S, Fiano.Manifest.C15.IsGenerated "cbntkey.Manifest" S) ∧ (∃ S, Fiano.Manifest.C15.IsGenerated "bgkey.Manifest" S) ∧
+    (∃ C, Fiano.Manifest.C15.IsGeneratedContainer "cbntbootpolicy.Manifest" C) := by
+  refine ⟨?_, ?_, ?_⟩
+  · cases h : Fiano.Manifest.sdefOf Fiano.Manifest.Tie.src 8 "cbntkey.Manifest" with
+    | some S => exact ⟨S, by decide, h⟩
+    | none => exact absurd h (by decide)
+  · cases h : Fiano.Manifest.sdefOf Fiano.Manifest.Tie.src 8 "bgkey.Manifest" with
+    | some S => exact ⟨S, by decide, h⟩
+    | none => exact absurd h (by decide)
+  · cases h : Fiano.Manifest.containerOf Fiano.Manifest.Tie.src 8 "cbntbootpolicy.Manifest"
+        (Fiano.Manifest.Tie.strictOf "cbntbootpolicy.Manifest") with
+    | some C => exact ⟨C, by decide, h⟩
+    | none => exact absurd h (by decide)
+
+/-- … and a small CBnT boot policy manifest (BPMH, no SE, no optional element, PMSE with a toy-sized
+    key and signature) satisfies the hypotheses of `bpm_signature_covers_stored` and `bpm_written_verdict`: both elements
+    are shaped, the value is well-typed as written, the output is 53 bytes, the stored
+    `KeySignatureOffset` is 32 = |BPMH| + |PMSE struct-info|, and the pipeline reaches a verdict -/
+example :
+    let key : Fiano.Manifest.Val := .node [.num 1, .num 0x10, .num 16, .bytes [1, 0, 1, 0, 0xaa, 0xbb]]
+    let sg : Fiano.Manifest.Val := .node [.num 0x14, .num 0x10, .num 16, .num 0x0b, .bytes [0xcc, 0xdd]]
+    let bpmh : List Fiano.Manifest.Val :=
+      [.node [.bytes (Fiano.Manifest.idBytes "__ACBP__"), .num 0x23, .num 0, .num 0], .num 0, .num 1, .num 2, .num 3, .bytes [0], .num 4]
+    let pmse : List Fiano.Manifest.Val :=
+      [.node [.bytes (Fiano.Manifest.idBytes "__PMSG__"), .num 0x20, .num 0, .num 0], .node [.num 0x10, key, sg]]
+    let bpm : List Fiano.Manifest.Val := [.node bpmh, .node [], .node [], .node [], .node [], .node [], .node pmse]
+    (match Fiano.Manifest.containerOf Fiano.Manifest.Tie.src 8 "cbntbootpolicy.Manifest"
+        (Fiano.Manifest.Tie.strictOf "cbntbootpolicy.Manifest") with
+      | some C => (match C.slots[0]?, C.slots[6]? with
+        | some s0, some s6 =>
+          Fiano.Manifest.shaped s0.elem.body bpmh && Fiano.Manifest.shaped s6.elem.body pmse &&
+          decide ((C.encode bpm).length = 53) &&
+          (match (C.rehash bpm)[0]? with
+            | some (Fiano.Manifest.Val.node Wg) =>
+              decide (Fiano.Manifest.getNum s0.elem.body Wg "KeySignatureOffset" = some 32)
+            | _ => false) &&
+          decide (SignedRange.covered (C.encode bpm) 32 = (C.encode bpm).take 32) &&
+          C.wt (C.rehash bpm) && decide ([7, 7, 7].length < C.siLen) &&
+          (SignedRange.bpmVerify Toy.prims C (C.encode bpm ++ [7, 7, 7])).isSome
+        | _, _ => false)
+      | none => false) = true := by decide
 
 end Fiano.Props.C16
